@@ -17,9 +17,9 @@ def expand(t):
     if t[0] == "atom":
         return ALIASES.get(t[1], t)
     return (t[0],) + tuple(expand(a) if isinstance(a, tuple) else a for a in t[1:])
-MUT_ATOMS = {"NL"}
+MUT_ATOMS = {"NL", "Lst", "Dct", "St"}   # incl. the BARE mutable collection classes (no type arguments)
 ATOM_SRC = {"int": "int", "str": "str", "float": "float", "bool": "bool", "Any": "Any", "None": "None", "Lit": "Literal[1, 'a']",
-            "Enum": "E", "NI": "NI", "NN": "NN", "NL": "NL", "N1": "N1", "N2": "N2", "NT": "NT", "NO": "NO"}
+            "Enum": "E", "NI": "NI", "NN": "NN", "NL": "NL", "N1": "N1", "N2": "N2", "NT": "NT", "NO": "NO", "Lst": "list", "Dct": "dict", "St": "set"}
 UNARY = {"opt": "Optional[{0}]", "vtuple": "tuple[{0}, ...]", "fset": "frozenset[{0}]", "seq": "Sequence[{0}]", "list": "list[{0}]", "set": "set[{0}]"}
 BINARY = {"union": "Union[{0}, {1}]", "bar": "{0} | {1}", "ftuple": "tuple[{0}, {1}]", "map": "Mapping[{0}, {1}]", "dict": "dict[{0}, {1}]"}
 
